@@ -10,12 +10,55 @@ sys.path.insert(0, os.path.join(VERIF, "translate"))
 _info = None
 
 
+LASTGOOD = os.path.join(VERIF, "coq", "GenLastGood", "Gen_Options.info.json")
+
+
+def _enc(x):
+    if isinstance(x, Fraction):
+        return {"__q": "%d/%d" % (x.numerator, x.denominator)}
+    if isinstance(x, tuple):
+        return {"__t": [_enc(y) for y in x]}
+    if isinstance(x, list):
+        return [_enc(y) for y in x]
+    if isinstance(x, dict):
+        return {k: _enc(v) for k, v in x.items()}
+    return x
+
+
+def _dec(x):
+    if isinstance(x, dict):
+        if "__q" in x:
+            return Fraction(x["__q"])
+        if "__t" in x:
+            return tuple(_dec(y) for y in x["__t"])
+        return {k: _dec(v) for k, v in x.items()}
+    if isinstance(x, list):
+        return [_dec(y) for y in x]
+    return x
+
+
 def info():
+    """the option table as the translator reads it from the working tree; when the translator no longer
+    understands the source (DESIGN 2.2 downgrade) the committed last-good table drives the case generator,
+    so that the oracles still run on the implementation and can produce a concrete failing input"""
     global _info
     if _info is None:
         import options2coq
-        _, _info = options2coq.translate()
+        try:
+            _, _info = options2coq.translate()
+        except Exception:
+            with open(LASTGOOD) as f:
+                _info = _dec(json.load(f))
     return _info
+
+
+def write_lastgood():
+    import options2coq
+    text, inf = options2coq.translate()
+    with open(LASTGOOD, "w") as f:
+        json.dump(_enc(inf), f, indent=0, sort_keys=True)
+    with open(os.path.join(VERIF, "coq", "GenLastGood", "Gen_Options.v"), "w") as f:
+        f.write(text)
 
 
 def f32(x):
@@ -608,8 +651,8 @@ def spec_expect(c):
         if o is None or not o["file"]:
             return ("fail", "unknown-cfg")
         key = o["canon"] if o["kind"] == "KAlias" else n
-        if key in cli:
-            continue            # shadowed by the command line: the value is never converted nor used (explored boundary, docs/built/C20.md)
+        if n in cli:
+            continue            # same name on the command line: the value is never converted nor used (explored boundary, docs/built/C20.md)
         if any(spec_malformed(o["ty"], t) for t in ts):
             return ("fail", "neg-unsigned" if all(value(o["ty"], t) is not None for t in ts) else "bad-cfg")
         if key in cfg and o["ty"] != "TVecFloat":
@@ -617,6 +660,8 @@ def spec_expect(c):
                 both = True         # legacy and current name in one file: the statement does not say
             else:
                 return ("fail", "repeat-cfg")
+        if key in cli:
+            continue            # legacy name, current name on the command line: converted (checked above) but not used
         cfg.setdefault(key, [[], n])
         cfg[key][0] += ts
     exp = {}
